@@ -340,8 +340,10 @@ def _det_namespace():
 class Shim:
     """Context manager installing the proxies on onnx_ir.external_data / _core."""
 
-    def __init__(self, ctl: Ctl, chunk: int | None, realfile: bool = False, pardet: bool = False):
+    def __init__(self, ctl: Ctl, chunk: int | None, realfile: bool = False, pardet: bool = False,
+                 model_fault: int | None = None):
         self.pardet = pardet
+        self.model_fault = model_fault     # errno: writing the MODEL file (onnx.save in _io.save) fails with it
         # realfile: the module's own open() is NOT replaced - ordinary buffered Python files with a file
         # descriptor, so ExternalTensor.tofile takes its copy_file_range path and numpy writes through the fd
         self.ctl, self.chunk, self.realfile = ctl, chunk, realfile
@@ -361,6 +363,19 @@ class Shim:
         ed.tempfile = _ModProxy(c, tempfile, "tempfile")
         if not self.realfile:
             ed.open = _make_open(c)
+        import onnx_ir._io as io_mod
+        self.io_mod = io_mod
+        self.saved["io_onnx"] = io_mod.__dict__.get("onnx")
+        if self.model_fault is not None:
+            import types
+            real_onnx, err = io_mod.onnx, self.model_fault
+
+            def failing_save(proto, path, *a, **kw):
+                c.log.append(("model_save_failed", os.fspath(path)))
+                raise OSError(err, os.strerror(err) + " (injected, model file)")
+            io_mod.onnx = types.SimpleNamespace(**{k: getattr(real_onnx, k) for k in ("load", "save", "ModelProto")
+                                                   if hasattr(real_onnx, k)})
+            io_mod.onnx.save = failing_save
         self.saved["concurrent"] = ed.__dict__.get("concurrent")
         if self.pardet:
             ed.concurrent = _det_namespace()
@@ -396,6 +411,8 @@ class Shim:
             ed.__dict__.pop("open", None)
         else:
             ed.open = s["open"]
+        if s.get("io_onnx") is not None:
+            self.io_mod.onnx = s["io_onnx"]
         _core._EXTERNAL_TENSOR_COPY_CHUNK_SIZE = s["chunk"]
         _core.ExternalTensor.release = s["release"]
         _core.ExternalTensor.invalidate = s["invalidate"]
@@ -499,6 +516,8 @@ def build(scn: dict, root: str) -> Built:
     os.umask(0o022)
     for sub in scn.get("dirs", []):
         os.makedirs(os.path.join(root, sub), exist_ok=True)
+    if scn.get("model_dir"):
+        os.makedirs(os.path.join(root, "model.onnx"))      # a directory sits at the model path: onnx.save fails
     for name, spec in scn["files"].items():
         p = os.path.join(root, name)
         if spec["kind"] == "file":
@@ -595,6 +614,7 @@ def snapshot(root: str) -> dict:
 
 def save_kwargs(scn: dict, cb_log: list | None = None) -> dict:
     kw = dict(external_data=scn["req"], size_threshold_bytes=scn["threshold"],
+              **({"format": scn["format"]} if scn.get("format") else {}),
               max_workers=scn.get("max_workers"), max_shard_size_bytes=scn.get("max_shard"))
     cb = scn.get("cb")
     if cb is not None:
@@ -621,7 +641,7 @@ def run_save(scn: dict, root: str, mode=None, index=-1, err=None, persistent=Fal
         ctl.tick("callback")
         ctl.log.append(("callback", i))
     outcome = ("ok", None)
-    with Shim(ctl, scn.get("chunk"), realfile, bool(scn.get("pardet"))):
+    with Shim(ctl, scn.get("chunk"), realfile, bool(scn.get("pardet")), scn.get("model_fault")):
         try:
             ir.save(b.model, os.path.join(root, "model.onnx"), **save_kwargs(scn, cb_log))
         except BaseException as e:  # noqa: BLE001  (KeyboardInterrupt / SystemExit are injected on purpose)
@@ -644,7 +664,7 @@ def run_killed(scn: dict, root: str, index: int, fault_at=None, err=None, persis
 
             def cb_log(i):
                 ctl.tick("callback")
-            with Shim(ctl, scn.get("chunk"), False, bool(scn.get("pardet"))):
+            with Shim(ctl, scn.get("chunk"), False, bool(scn.get("pardet")), scn.get("model_fault")):
                 try:
                     ir.save(b.model, os.path.join(root, "model.onnx"), **save_kwargs(scn, cb_log))
                 except BaseException:  # noqa: BLE001
